@@ -307,10 +307,14 @@ def build(spec):
                 return np.asarray(z).astype(spec["dtype"])
 
             x = cls.from_fill_fn(fill, indices, charge=charge, **symkw, **kw)
-        # the library fills every sector it considers valid: keep the listed ones
+        # the library fills every sector it considers valid: keep the listed
+        # ones (only sectors that *are* valid by the independent arithmetic
+        # are thinned out: a block the library put somewhere else stays where
+        # the auditor will find it)
         keep = set(sectors)
+        valid = set(valid_sectors(spec["sym"], spec["indices"], untuple(spec["charge"])))
         for s in list(x.blocks):
-            if s not in keep:
+            if s not in keep and s in valid:
                 del x.blocks[s]
         return x
     blocks = {sec: data(sec) for sec in sectors}
